@@ -24,7 +24,7 @@ from vf.core import case_id, digest, scratch_root
 LEVEL = "exploration"
 RULE = (
     "directories of N=3 (thorough: 4) files whose kinds are drawn from {clean, LT01-fixable, unparsable, Jinja file in a sub-directory with its "
-    "own .sqlfluff templater context, inline `-- sqlfluff:` config, over the byte limit}: every set of distinct kinds (quick) / every multiset "
+    "own .sqlfluff templater context, inline `-- sqlfluff:` config, over the byte limit, whitespace-only}: every set of distinct kinds (quick) / every multiset "
     "(thorough) x workers K in {2, 3} (thorough: + 4) x EVERY schedule (assignment of tasks to workers + completion order) x {lint, fix with "
     "apply_fixes} x path order {directory, reversed explicit file list} x templating in worker / in main process. Oracle: per-file violation "
     "records, bytes on disk after fix, files_skipped and the exit code computed by LintingResult.stats equal those of a serial "
@@ -35,12 +35,12 @@ ASSUMPTIONS = [
     "the virtual pool reproduces Pool's observable contract (ordered hand-out, unordered completion, pickled boundary, per-worker persistent state), not its thread internals",
     "files in a directory are distinct paths, so a task's result depends only on its worker's history (the same-file-twice family is out of scope here)",
 ]
-BOUND = {"quick": "20 directories (3 distinct kinds of 6) x K in {2,3} x all schedules x {lint, fix} x 2 path orders; templating-in-main on K=2", "thorough": "56 multisets, N=4 for distinct kinds, K up to 4"}
+BOUND = {"quick": "35 directories (3 distinct kinds of 7) x K in {2,3} x all schedules x {lint, fix} x 2 path orders; templating-in-main on K=2", "thorough": "84 multisets, N=4 for distinct kinds, K up to 4"}
 FLOOR = {"quick": 1000, "thorough": 10000}
 CHUNK = 1
 TIMEOUT = 900  # per case; fresh child processes are slow when the machine is loaded
 
-KINDS = ["clean", "fixable", "unparsable", "jinja", "inline", "oversize"]
+KINDS = ["clean", "fixable", "unparsable", "jinja", "inline", "oversize", "blank"]
 TEXT = {
     "clean": "SELECT a FROM t\n",
     "fixable": "SELECT a  from t\n",
@@ -48,6 +48,8 @@ TEXT = {
     "jinja": "SELECT {{ col }}  FROM {{ tbl }}\n",
     "inline": "-- sqlfluff:rules:capitalisation.keywords:capitalisation_policy:lower\nSELECT a FROM t\n",
     "oversize": "SELECT a  FROM t -- " + "x" * 400 + "\n",
+    # whitespace only (no token besides whitespace / newline): still has LT01 violations and a fix
+    "blank": "    \n\t\n",
 }
 
 
